@@ -335,3 +335,69 @@ Fixpoint keys_unique {A} (eqb : A -> A -> bool) (l : list A) : bool :=
 Definition is_digit (b : N) : bool := (48 <=? b) && (b <=? 57).
 Definition suffix_clean (e : entry) : bool := forallb (fun b => negb (is_digit b)) (e_suffix e).
 Definition suffixes_clean (tbl : table) : bool := forallb suffix_clean tbl.
+
+(* ------------------------------------------------------------------------------------ *)
+(* several clients in one process.  NewMTProto gives every client its own DC table, a fresh
+   copy of defaultDCList(); SetDCList writes the given entries over the client's own table;
+   tryToProcessErr reads the client's own table and, on a switch, changes the client's own
+   address.  Clients are numbered in the order of their creation. *)
+
+Definition cstate := (bytes * dctable)%type.          (* m.addr, m.dclist *)
+Definition world := list cstate.
+
+Inductive cop :=
+| NewClient (addr : bytes)
+| SetDC (c : nat) (t : dctable)                       (* t: a Go map, keys unique *)
+| Process (c : nat) (message : bytes) (info : adata).
+
+Fixpoint upd {A} (l : list A) (i : nat) (f : A -> A) : list A :=
+  match l, i with
+  | [], _ => []
+  | x :: r, O => f x :: r
+  | x :: r, S j => x :: upd r j f
+  end.
+
+(* lookup finds the first pair: entries of t shadow the older ones *)
+Definition set_dcs (t : dctable) (st : cstate) : cstate := (fst st, t ++ snd st).
+Definition set_addr (a : bytes) (st : cstate) : cstate := (a, snd st).
+
+Definition cstep (defaults : dctable) (w : world) (o : cop) : world * option (outcome action) :=
+  match o with
+  | NewClient a => (w ++ [(a, defaults)], None)
+  | SetDC c t => (upd w c (set_dcs t), None)
+  | Process c m i =>
+      match nth_error w c with
+      | None => (w, None)                             (* no such client: not an operation *)
+      | Some st =>
+          let r := process_err (snd st) m i in
+          (match r with Ok (Switch a) => upd w c (set_addr a) | _ => w end, Some r)
+      end
+  end.
+
+Fixpoint crun (defaults : dctable) (w : world) (h : list cop) : world :=
+  match h with
+  | [] => w
+  | o :: h' => crun defaults (fst (cstep defaults w o)) h'
+  end.
+
+(* what tryToProcessErr on client c answers in world w *)
+Definition observe (w : world) (c : nat) (m : bytes) (i : adata) : option (outcome action) :=
+  option_map (fun st => process_err (snd st) m i) (nth_error w c).
+
+(* the operations that concern client c: creations (they fix the numbering) and its own *)
+Definition concerns (c : nat) (o : cop) : bool :=
+  match o with
+  | NewClient _ => true
+  | SetDC c' _ => Nat.eqb c' c
+  | Process c' _ _ => Nat.eqb c' c
+  end.
+
+Definition restrict (c : nat) (h : list cop) : list cop := filter (concerns c) h.
+
+(* the tables given to SetDCList on client c, latest first *)
+Fixpoint own_sets (c : nat) (h : list cop) : dctable :=
+  match h with
+  | [] => []
+  | SetDC c' t :: h' => if Nat.eqb c' c then own_sets c h' ++ t else own_sets c h'
+  | _ :: h' => own_sets c h'
+  end.
